@@ -178,8 +178,13 @@ def run_config(cx, cfg, prog):
         if c in prog.bodies:
             if base_fn(c) == 'feed' and 'BufferedLineStream' in c:
                 w = cx.walk(c, prog=prog, key='census')
-                ok = not [e for e in w.events if e.kind == 'await'] and all(e.data.get('name') in ('push', None) or e.kind != 'call'
-                                                                          or e.data.get('name') == 'push' for e in w.events if e.kind == 'call')
+                # buffer-only: nothing is awaited, the framed socket (`self.stream`) is not touched, and every call is the push itself
+                # or a local helper that was looked through (its own calls are in the event list)
+                sock = field(('param', 'self'), 'stream')
+                ok = not [e for e in w.events if e.kind == 'await'] and all(
+                    (e.data.get('name') == 'push' or (e.data.get('local') and e.data.get('inlined')))
+                    and not any(mentions(a, sock) for a in (e.data.get('args') or []) if isinstance(a, tuple))
+                    for e in w.events if e.kind == 'call')
                 return ('buffer', None) if ok else ('io', 'BufferedLineStream::feed is no longer buffer-only')
             if nm in CPU_AWAITS:
                 return ('cpu', None)
